@@ -47,6 +47,8 @@ def make_G(cfg, a0, b0, a1, b1, c0, d0):
         pairs = [(1, 2, [[a0, b0]]), (2, 1, [[c0, d0]])]
     elif shape == "recip_n2":
         pairs = [(2, 1, [[a0, b0], [a1, b1]]), (1, 2, [[c0, d0]])]
+    elif shape == "recip_n2b":
+        pairs = [(1, 2, [[a0, b0], [a1, b1]]), (2, 1, [[c0, d0]])]
     pairs_done = []
     for (u, v, tl) in pairs:
         assume(inv.canonical_nf(tl))
@@ -55,6 +57,11 @@ def make_G(cfg, a0, b0, a1, b1, c0, d0):
                 assume(ab[1] - ab[0] <= cfg["L"])
         if cfg["mode"] == "fixed_lens":
             assume(tl[0][1] - tl[0][0] == cfg["lens"][len(pairs_done)])
+        if cfg["mode"] == "fixed_n2":      # recip_n2: lens = (run0 of pair0, run1 of pair0, run of pair1)
+            if len(pairs_done) == 0:
+                assume((tl[0][1] - tl[0][0] == cfg["lens"][0]) & (tl[1][1] - tl[1][0] == cfg["lens"][1]))
+            else:
+                assume(tl[0][1] - tl[0][0] == cfg["lens"][2])
         pairs_done.append(1)
         build.put_pair(g, u, v, tl, index=False)
     return g, pairs
